@@ -127,6 +127,10 @@ pub struct LouvCase {
     pub weighted: bool,
     pub res: (i64, u32),
     pub seed: u64,
+    /// the implementation sees every weight divided by this number (1 = the integer weights themselves): weights that differ
+    /// in the tenth digit, or that are all tiny - modularity and every gain comparison are invariant under the scaling, so
+    /// the model and the checker keep working on the integer numerators
+    pub wden: u64,
 }
 impl LouvCase {
     pub fn request(&self) -> String {
@@ -140,7 +144,7 @@ impl LouvCase {
             perms.push_str(&format!(" {}", l));
             for x in v { perms.push_str(&format!(" {}", x)); }
         }
-        format!("louv {} {} {} {} {} {}", self.g.tokens(), self.weighted as u8, self.res.0, self.res.1, self.seed as i64, perms)
+        format!("louv {} {} {} {} {} {} {}", self.g.tokens(), self.weighted as u8, self.res.0, self.res.1, self.seed as i64, perms, self.wden)
     }
     pub fn parse(t: &mut Toks) -> LouvCase {
         let g = GraphCase::parse(t);
@@ -148,7 +152,8 @@ impl LouvCase {
         let res = (t.next(), t.next() as u32);
         let seed = t.next() as u64;
         let _perms = t.list(|t| t.list(|t| t.next()));
-        LouvCase { g, weighted, res, seed }
+        let wden = t.next() as u64;
+        LouvCase { g, weighted, res, seed, wden }
     }
 }
 
@@ -171,7 +176,7 @@ fn tok_sets(l: &[Vec<u32>]) -> String {
 }
 
 fn louvain_once(c: &LouvCase) -> Result<(Levels, Result<Vec<Vec<u32>>, u32>), String> {
-    let g = c.g.build().map_err(|e| format!("E{}", err_code(&e.kind)))?;
+    let g = if c.wden <= 1 { c.g.build() } else { c.g.build_divided(c.wden as f64) }.map_err(|e| format!("E{}", err_code(&e.kind)))?;
     let res = c.res.0 as f64 / c.res.1 as f64;
     let parts = louvain::louvain_partitions(&g, c.weighted, Some(res), None, Some(c.seed)).map_err(|e| format!("E{}", err_code(&e.kind)))?;
     let comm = louvain::louvain_communities(&g, c.weighted, Some(res), None, Some(c.seed));
@@ -218,7 +223,44 @@ pub fn observe_louv(c: &LouvCase, limit_ms: u64) -> String {
     }
 }
 
+/// a hub joined to several identical cliques by edges whose weights differ in the tenth significant digit (or are all of
+/// the order 1e-9): candidate communities whose gains are neither equal nor clearly apart
+fn gen_nearties(rng: &mut Rng) -> LouvCase {
+    let (base, wden): (i64, u64) = if rng.chance(60) { (2_500_000_000, 2_500_000_000) } else { (10, 10_000_000_000) };
+    let step: i64 = if base > 100 { 1 } else { 4 };
+    let t = rng.range(3, 5) as u32;
+    let csize = rng.range(2, 4) as u32;
+    let n = 1 + t * csize;
+    let mut names: Vec<u32> = (1..=n).collect();
+    rng.shuffle(&mut names);
+    let hub = names[0];
+    let mut edges = vec![];
+    for c in 0..t {
+        let first = 1 + c * csize;
+        for i in 0..csize { for j in (i + 1)..csize { edges.push((names[(first + i) as usize], names[(first + j) as usize], Some(base))); } }
+        if csize == 2 && rng.chance(50) { edges.push((names[first as usize], names[first as usize + 1], Some(base))); edges.pop(); }
+        edges.push((hub, names[first as usize], Some(base + step * rng.range(0, 3))));
+    }
+    if rng.chance(50) { rng.shuffle(&mut edges); }
+    let mut nodes = names.clone();
+    if rng.chance(50) { rng.shuffle(&mut nodes); }
+    let directed = rng.chance(25);
+    let g = GraphCase { specs: crate::store::Specs { directed, multi: false, self_loops: false, dedupe: 1, missing: 0, slfalse: 1 }, nodes, edges };
+    LouvCase { g, weighted: true, res: *rng.pick(&[(1i64, 1u32), (1, 1), (1, 2), (3, 2)]), seed: rng.below(1000), wden }
+}
+
 pub fn gen_louv(rng: &mut Rng, profile: &str, size: usize) -> LouvCase {
+    if profile == "nearties" { return gen_nearties(rng); }
+    if profile == "inexact" {
+        // ordinary decimal weights (0.1, 0.3, 1/7 ...): sums that are not exact in f64, so that any dependence of a rounding
+        // on the iteration order of a hash container can flip an exact tie
+        let base = if rng.chance(40) { "ties" } else { "random" };
+        let mut c = gen_louv(rng, base, size);
+        c.weighted = true;
+        for e in c.g.edges.iter_mut() { if e.2.is_none() { e.2 = Some(rng.range(1, 22)); } else if rng.chance(60) { e.2 = Some(rng.range(1, 22)); } }
+        c.wden = *rng.pick(&[3u64, 7, 10, 10, 10, 100, 10_000_000_000]);
+        return c;
+    }
     let weighted = rng.chance(50);
     let ties = profile == "ties";
     let mut g;
@@ -270,7 +312,7 @@ pub fn gen_louv(rng: &mut Rng, profile: &str, size: usize) -> LouvCase {
         g = GraphCase { specs: crate::store::Specs { directed: true, multi: false, self_loops: false, dedupe: 1, missing: 0, slfalse: 1 }, nodes, edges };
         res = *rng.pick(&[(6i64, 5u32), (6, 5), (11, 10), (5, 4), (3, 2), (7, 4), (2, 1), (1, 1)]);
     }
-    LouvCase { g, weighted, res, seed: special_seed(rng, 1000) }
+    LouvCase { g, weighted, res, seed: special_seed(rng, 1000), wden: 1 }
 }
 
 pub fn candidates_louv(c: &LouvCase) -> Vec<String> {
